@@ -99,8 +99,52 @@ def _simplex_dets(g):
     return np.array(out)
 
 
+def prism_recipe(n, variant, rng):
+    """triangular prisms: the structured triangle grid n[0] x n[1] (2 n[0] n[1] triangles) extruded over n[2] layers with
+    pp.grid_extrusion.extrude_grid - cells with triangular (bottom / top) AND quadrilateral (vertical) faces.
+    Recipe: base = dict(kind="triprism", axes = the 2D tensor axes, zs = the layer coordinates), ops = operations on the
+    2D BASE grid before the extrusion (vertical faces stay planar rectangles).  plain: unit spacing; perturbed: base scaled
+    by 3 and lattice-perturbed (triangles keep their orientation, not too thin), non-uniform integer layer heights."""
+    axes = [list(range(k + 1)) for k in n[:2]]
+    if variant == "plain":
+        return dict(base=dict(kind="triprism", axes=axes, zs=list(range(n[2] + 1))))
+    hs = [rng.randint(1, 3) for _ in range(n[2])] if n[2] > 1 else [rng.randint(2, 3)]
+    if n[2] > 1 and len(set(hs)) == 1:
+        hs[-1] = hs[-1] % 3 + 1
+    base = dict(kind="triprism", axes=axes, zs=list(np.cumsum([0] + hs).tolist()))
+    s = 3
+    g0 = _triangle_base(dict(base=base, ops=[dict(op="scale", k=s)]))
+    d0 = _simplex_dets(g0)
+    for _ in range(200):
+        d = [[(rng.randint(-1, 1) if k < 2 and rng.random() < 0.7 else 0) for k in range(3)] for _ in range(g0.num_nodes)]
+        r = dict(base=base, ops=[dict(op="scale", k=s), dict(op="perturb", d=d)])
+        d1 = _simplex_dets(_triangle_base(r))
+        if np.all(d1 * np.sign(d0) >= 0.3 * np.abs(d0)):
+            return r
+    return dict(base=base, ops=[dict(op="scale", k=s)])
+
+
+def _triangle_base(recipe):
+    """the 2D triangle grid of a "triprism" recipe with the recipe's operations applied (no geometry computed)"""
+    b = recipe["base"]
+    g, _i = G.build(dict(base=dict(kind="simplex", axes=b["axes"]), ops=recipe.get("ops", [])))
+    return g
+
+
+def _triprism(recipe):
+    import porepy as pp
+
+    g2 = _triangle_base(recipe)
+    g2.compute_geometry()
+    g, _cm, _fm = pp.grid_extrusion.extrude_grid(g2, np.asarray(recipe["base"]["zs"], dtype=float))
+    return g
+
+
 def recipe_for(kind, n, variant, rng):
-    """recipe (see _grids.build) of the grid of a configuration; all random choices are stored explicitly"""
+    """recipe (see _grids.build; kind "prism": prism_recipe) of the grid of a configuration; all random choices are
+    stored explicitly"""
+    if kind == "prism":
+        return prism_recipe(list(n), variant, rng)
     dim = len(n)
     axes = [list(range(k + 1)) for k in n]
     base = dict(kind="tensor", axes=axes, cart=True) if kind == "cart" else dict(kind="simplex", axes=axes)
@@ -133,7 +177,10 @@ def recipe_for(kind, n, variant, rng):
 
 
 def build(recipe):
-    g, _info = G.build(recipe)
+    if recipe["base"]["kind"] == "triprism":
+        g = _triprism(recipe)
+    else:
+        g, _info = G.build(recipe)
     with warnings.catch_warnings():
         warnings.simplefilter("ignore")
         g.compute_geometry()
@@ -151,14 +198,18 @@ class Family:
     admissible Neumann sets of at most max_neu faces"""
 
     def __init__(self, ctx, sizes, mus, lams, bcmodes=("dir", "mix"), max_neu=2, with_sets=True, coefs=None, alphacat=(),
-                 roll_modes=()):
+                 roll_modes=(), prism_sizes=()):
+        """prism_sizes: the (nx, ny, layers) of the third grid kind "prism" (empty: the kind is not enumerated)"""
         rng = ctx.rng
         self.keys = [(k, tuple(n), v) for k in ("cart", "simplex") for n in sorted(sizes, key=lambda t: (len(t), t))
                      for v in ("plain", "perturbed")]
+        # the prism grids come last: the random choices made for the other kinds do not depend on them
+        self.keys += [("prism", tuple(n), v) for n in sorted(prism_sizes) for v in ("plain", "perturbed")]
         self.recipes = {k: recipe_for(k[0], list(k[1]), k[2], rng) for k in self.keys}
         self.grids = {k: build(self.recipes[k]) for k in self.keys}
         exported = [G.export(self.grids[k]) for k in self.keys] if with_sets else []
-        consts = dict(Kinds={"cart", "simplex"}, Sizes={tuple(n) for n in sizes}, Variants={"plain", "perturbed"},
+        consts = dict(Kinds={"cart", "simplex"} | ({"prism"} if prism_sizes else set()), Sizes={tuple(n) for n in sizes},
+                      PrismSizes={tuple(n) for n in prism_sizes}, Variants={"plain", "perturbed"},
                       Mus=set(mus), Lams=set(lams), BcModes=set(bcmodes), Fields=[f_["G"] for f_ in FIELDS],
                       Coefs=tlc.Raw("{" + ", ".join(tlc.tla(c) for c in (coefs or [dict(alpha=0, p=0)])) + "}"),
                       AlphaCat=[list(map(list, a)) for a in alphacat],
